@@ -292,18 +292,44 @@ def chain_sort_key(c):
     return "ZZ" if c == "" else c
 
 
+RNA_MAP = {"A": "RA", "C": "RC", "G": "RG", "U": "RU"}
+
+# the features of the imported generators (harness/props/c07.py gen_structured / gen_malformed) this
+# oracle was written and validated for; a case carrying any other feature is outside its domain
+KNOWN_FEATS = (
+    "models=", "water", "unmapped-atom-names", "unknown-records", "trailing-blanks", "split-residue", "short-mid",
+    "short-54", "serial>=10000", "repeated-residue", "real-fragment", "other-records", "numbering:", "nucleotide",
+    "no-final-eol", "negative-resseq", "model-style:", "malformed:", "later-model-renumbered", "icode",
+    "failing-other-records", "cut@", "blank-lines", "blank-chain", "altloc-block", "altloc", "TER", "END-repeated",
+    "END-middle", "END-first", "CRLF", "termini", "cyclic", "corpus:", "witness:",
+)
+
+
+def canonical_name(tab, resn, name):
+    """Name of the atom after the alias renaming of the residue class it is grouped into."""
+    rn = resn if resn in tab else RNA_MAP.get(resn, resn)
+    return tab.get(rn, ("KGeneric", {}))[1].get(name, name)
+
+
 def search_case(ctx, case, tab, pt, real=None):
     """The independent oracle on one text.  Deviations that set_termini makes by
     design (see notes/E2E_Clean.md) are classified and counted, everything else
     is a failure."""
     text, dropw, keep, ws = case["text"], case["dropw"], case["keep"], case["ws"]
+    unknown = [f for f in case.get("feats", []) if not f.startswith(KNOWN_FEATS)]
+    if unknown:
+        ctx.count("search:outside-oracle-domain(generator feature " + unknown[0] + ")")
+        return
     sl = slicer(text)
     if sl is None:
         ctx.count("search:outside-column-oracle")
         return
     kept, first, later = sl
     # blank chains of TER-delimited segments are lettered with identifiers no record of the file uses
-    free = [c for c in LETTERS if c not in {d["chain"] for d in first + later}]
+    # (--drop-water removes the water records from the record list BEFORE Biomolecule sees it: a chain id
+    # only waters carry is free again)
+    seen_by_biomolecule = [d for d in first + later if not (dropw and d["resn"] in ("HOH", "WAT"))]
+    free = [c for c in LETTERS if c not in {d["chain"] for d in seen_by_biomolecule}]
     for d in first + later:
         if isinstance(d["segchain"], tuple):
             seg = d["segchain"][1]
@@ -330,6 +356,26 @@ def search_case(ctx, case, tab, pt, real=None):
         for d in run:
             d["run_resn"] = run[-1]["resn"]
             d["key_resns"] = by_key[(d["segchain"], d["seq"], d["ic"])]
+    # alias spellings: the residue constructors rename an atom through the residue's alias table
+    # (ref.altnames, from the repo's definitions) and keep the FIRST atom of a name only (C07's design
+    # guard G5).  Identity of an input record = its CANONICAL name inside its residue instance; a later
+    # record with the same canonical name is the same atom listed again, not a lost record.
+    keptset = {id(d) for d in kept}
+    ndup = 0
+    for run in runs:
+        seen_c = set()
+        for d in run:
+            if id(d) not in keptset:
+                continue
+            cn = canonical_name(tab, d["run_resn"], d["name"])
+            d["cname"] = cn
+            if cn in seen_c:
+                d["alias_dup"] = True
+                ndup += 1
+            seen_c.add(cn)
+    if ndup:
+        ctx.count("search:alias-duplicate-of-an-earlier-record(same atom)", ndup)
+        kept = [d for d in kept if not d.get("alias_dup")]
     if any(math.isnan(d[k]) or math.isinf(d[k]) for d in kept for k in "xyz"):
         ctx.count("search:non-finite-coordinate")
         return
